@@ -42,7 +42,7 @@ type rd struct {
 }
 
 func (r *rd) ReadAt(p []byte, off int64) (int, error) {
-	if len(r.log) < 1<<16 {
+	if len(r.log) < 1<<12 {
 		r.log = append(r.log, call{len(p), off})
 	}
 	if off < 0 {
@@ -146,6 +146,17 @@ func main() {
 		o := run(h, true)
 		return !o.err && len(o.segs) == 1 && o.segs[0] == [2]int64{0, int64(B)}
 	}
+	// the same without the goroutine and timer of run, for the quarter of a million placements below (the
+	// size field of these headers is empty or overwritten by text that is no number: nothing can loop)
+	okOneFast := func(h []byte) (ok bool) {
+		defer func() {
+			if recover() != nil {
+				ok = false
+			}
+		}()
+		segs, err := tarfs.FindSegmentsForVerif(&rd{data: h, zeroTail: true})
+		return err == nil && len(segs) == 1 && segs[0].Start == 0 && segs[0].Size == int64(B)
+	}
 	// candidates
 	cand := map[string]bool{"ustar\x00": true, "ustar ": true, "ustar  \x00": true, "00": true}
 	for _, l := range in.Lits {
@@ -180,10 +191,7 @@ func main() {
 					h := blank()
 					copy(h[k:], m)
 					copy(h[j:], v)
-					if k == 0 || j == 0 {
-						// the name was overwritten, fine: still not a zero block
-					}
-					if okOne(h) {
+					if okOneFast(h) {
 						out.Pairs = append(out.Pairs, [2]int{k, j})
 					}
 				}
